@@ -48,62 +48,62 @@ type Input struct {
 
 // PathResult describes one explored path.
 type PathResult struct {
-	Status    string            `json:"status"`
-	Detail    string            `json:"detail,omitempty"`
-	Decisions int               `json:"decisions"`
-	Steps     int64             `json:"steps"`
-	Events    []Event           `json:"events,omitempty"`
-	Inputs    map[string]string `json:"inputs,omitempty"`
+	Status    string             `json:"status"`
+	Detail    string             `json:"detail,omitempty"`
+	Decisions int                `json:"decisions"`
+	Steps     int64              `json:"steps"`
+	Events    []Event            `json:"events,omitempty"`
+	Inputs    map[string]string  `json:"inputs,omitempty"`
 	InputsF   map[string]float64 `json:"inputs_float,omitempty"`
-	PanicMsg  string            `json:"panic,omitempty"`
-	Where     string            `json:"where,omitempty"`
-	Violation string            `json:"violation,omitempty"` // assertion label or panic site
+	PanicMsg  string             `json:"panic,omitempty"`
+	Where     string             `json:"where,omitempty"`
+	Violation string             `json:"violation,omitempty"` // assertion label or panic site
 }
 
 // Config bounds an exploration.
 type Config struct {
-	MaxPaths     int
-	MaxSteps     int64
-	MaxDepth     int
-	SolverKind   string
-	SolverTimeMs int
-	TimeLimit    time.Duration
-	Trace        bool
-	SolverLog    string
-	Tier         int
+	MaxPaths      int
+	MaxSteps      int64
+	MaxDepth      int
+	SolverKind    string
+	SolverTimeMs  int
+	TimeLimit     time.Duration
+	Trace         bool
+	SolverLog     string
+	Tier          int
 	Shard, Shards int // explore only prefixes whose hash falls in this shard (after ShardDepth decisions)
-	ShardDepth   int
-	KeepPaths    int // keep at most this many ok-path records (violations always kept)
-	FrontierMin  int      // breadth-first until the queue holds this many prefixes, then stop and return them
-	Prefixes     []string // start from these decision prefixes (t/f free, T/F forced) instead of the root
+	ShardDepth    int
+	KeepPaths     int      // keep at most this many ok-path records (violations always kept)
+	FrontierMin   int      // breadth-first until the queue holds this many prefixes, then stop and return them
+	Prefixes      []string // start from these decision prefixes (t/f free, T/F forced) instead of the root
 }
 
 // Report is the outcome of exploring one harness.
 type Report struct {
-	Harness        string         `json:"harness"`
-	Paths          int            `json:"paths"`
-	Decisions      int            `json:"decisions"`
-	ByStatus       map[string]int `json:"by_status"`
-	Reach          map[string]int `json:"reach"`
-	Asserts        map[string]int `json:"asserts"`
-	Violations     []PathResult   `json:"violations"`
-	Inconclusive   []PathResult   `json:"inconclusive"`
-	Samples        []PathResult   `json:"samples"`
-	SolverQueries  int            `json:"solver_queries"`
-	SolverTimeS    float64        `json:"solver_time_s"`
-	ModelTimeS     float64        `json:"model_time_s"`
-	SolverErrors   int            `json:"solver_errors"`
-	SolverUnknown  int            `json:"solver_unknown"`
-	WallS          float64        `json:"wall_s"`
-	Functions      []string       `json:"functions_encoded"`
-	Inputs         []Input        `json:"inputs"`
-	Truncated      bool           `json:"truncated"`
-	TruncatedWhy   string         `json:"truncated_why,omitempty"`
-	MaxStepsSeen   int64          `json:"max_steps_seen"`
-	MaxDepthSeen   int            `json:"max_depth_seen"`
-	Assumptions    []string       `json:"assumptions,omitempty"`
-	QueueLeft      int            `json:"queue_left"`
-	Frontier       []string       `json:"frontier,omitempty"`
+	Harness       string         `json:"harness"`
+	Paths         int            `json:"paths"`
+	Decisions     int            `json:"decisions"`
+	ByStatus      map[string]int `json:"by_status"`
+	Reach         map[string]int `json:"reach"`
+	Asserts       map[string]int `json:"asserts"`
+	Violations    []PathResult   `json:"violations"`
+	Inconclusive  []PathResult   `json:"inconclusive"`
+	Samples       []PathResult   `json:"samples"`
+	SolverQueries int            `json:"solver_queries"`
+	SolverTimeS   float64        `json:"solver_time_s"`
+	ModelTimeS    float64        `json:"model_time_s"`
+	SolverErrors  int            `json:"solver_errors"`
+	SolverUnknown int            `json:"solver_unknown"`
+	WallS         float64        `json:"wall_s"`
+	Functions     []string       `json:"functions_encoded"`
+	Inputs        []Input        `json:"inputs"`
+	Truncated     bool           `json:"truncated"`
+	TruncatedWhy  string         `json:"truncated_why,omitempty"`
+	MaxStepsSeen  int64          `json:"max_steps_seen"`
+	MaxDepthSeen  int            `json:"max_depth_seen"`
+	Assumptions   []string       `json:"assumptions,omitempty"`
+	QueueLeft     int            `json:"queue_left"`
+	Frontier      []string       `json:"frontier,omitempty"`
 }
 
 type explorer struct {
@@ -112,18 +112,19 @@ type explorer struct {
 	cfg    Config
 	queue  []workItem
 
-	prefix []decision
-	pos    int
-	trace  []decision
-	pcSet  map[*sym.Term]bool
-	model  sym.Model
-	inputs []*Input
-	inputByID map[string]*Input
-	events []Event
+	prefix      []decision
+	pos         int
+	trace       []decision
+	pcSet       map[*sym.Term]bool
+	model       sym.Model
+	inputs      []*Input
+	inputByID   map[string]*Input
+	events      []Event
 	unknownHere bool
 	modelValid  bool
 
 	mapOrderSymbolic bool
+	mapOrderIn       string // when set, only range statements in functions whose name contains it
 	permCount        int
 
 	allInputs map[string]Input
@@ -461,6 +462,7 @@ func (ex *explorer) runOne(entry *ssa.Function, item workItem) (res PathResult) 
 	ex.unknownHere = false
 	ex.permCount = 0
 	ex.mapOrderSymbolic = false
+	ex.mapOrderIn = ""
 	i.steps = 0
 	i.curFrame = nil
 	i.undoOn = true
